@@ -24,7 +24,7 @@ func (c10) ID() string { return "C10" }
 func (c10) Meta(tier string) engine.Meta {
 	return engine.Meta{
 		Level: "model_checking",
-		Rule: "structural half: all terms of depth <= 2 (thorough: depth 3 with one nested depth-2 operand) over 2 atoms and 17 constructors — infix, prefix, ?:, method call with and without arguments, parentheses, plain call, subscript, member, list / map / object literals — i.e. every node kind nested in every operand position; each is rendered, parsed by the real parser and desugared: the result must equal the independently computed core form (op(x,y), op(x), if(c,a,b), f(o,args), e; receiver then arguments in source order), contain no sugar node, be a fixpoint of Desugar, carry the operator's column, and the input tree (deep snapshot incl. spans) must be unchanged. Semantic half: every well-typed program of the small-alphabet (one nested operand) and effects corpora is evaluated from its sugared source and from the explicit core tree built directly with the ast constructors and fed to Expr.CompileExpr: same outcome class, same value, same host-call trace on two back ends; plus paired source texts (c?a:b / if(c,a,b), o.f(x) / f(o,x), x + y / x. +(y), (e) / e), each also on an engine built with UseBuiltIn(false) and the same operators / functions registered by hand; callee family: sugar inside computed callees and their arguments (6 x 6 sugar forms x 8 callee shapes). non-trivial = terms containing at least one sugar node",
+		Rule: "structural half: all terms of depth <= 2 (thorough: depth 3 with one nested depth-2 operand) over 3 atoms (a variable, a number, a boolean literal) and 17 constructors — infix, prefix, ?:, method call with and without arguments, parentheses, plain call, subscript, member, list / map / object literals — i.e. every node kind nested in every operand position; each is rendered, parsed by the real parser and desugared: the result must equal the independently computed core form (op(x,y), op(x), if(c,a,b), f(o,args), e; receiver then arguments in source order), contain no sugar node, be a fixpoint of Desugar, carry the operator's column, and the input tree (deep snapshot incl. spans) must be unchanged. Semantic half: every well-typed program of the small-alphabet (one nested operand) and effects corpora is evaluated from its sugared source and from the explicit core tree built directly with the ast constructors and fed to Expr.CompileExpr: same outcome class, same value, same host-call trace on two back ends; plus paired source texts (c?a:b / if(c,a,b), o.f(x) / f(o,x), x + y / x. +(y), (e) / e), each also on an engine built with UseBuiltIn(false) and the same operators / functions registered by hand, and on engines with an additional identity translator registered before / after first use; callee family: sugar inside computed callees and their arguments (6 x 6 sugar forms x 8 callee shapes). non-trivial = terms containing at least one sugar node",
 		Bound: "depth 2 (structural); depth 2 with one nested operand (semantic)",
 		Assumptions: []string{"the expected core form is computed on the harness's own term type (mc/props/c10.go), never by the code under test"},
 	}
@@ -119,7 +119,7 @@ func hasSugar(t *gen.Term) bool {
 
 func (c10) Generate(tier string, yield func(*engine.Case) bool) {
 	ok := true
-	atoms := []*gen.Term{gen.VarT("a"), gen.NumT(1)}
+	atoms := []*gen.Term{gen.VarT("a"), gen.NumT(1), gen.BoolT(true)}
 	ctors := c10Ctors()
 	emitT := func(fam string, t *gen.Term) bool {
 		if ok && !yield(progCase(fam, t, real.EnvSpec{Rep: "raw"}, "")) {
@@ -335,6 +335,17 @@ func handAssembled(b real.Backend) *yae.Expr {
 	return yae.NewExpr().UseCompiler(b.Compiler()).UseBuiltIn(false).RegisterOperator(oper.BuiltIn()...).RegisterFun(fun.BuiltIn()...)
 }
 
+// withIdentityTranslator: a default engine with one more translator (the identity) registered
+// before its first use, or after it; sugar must mean the same on both.
+func withIdentityTranslator(b real.Backend, afterFirstUse bool) *yae.Expr {
+	e := yae.NewExpr().UseCompiler(b.Compiler())
+	id := func(x ast.Expr) ast.Expr { return x }
+	if afterFirstUse {
+		_, _ = e.Compile("1", map[string]interface{}{})
+	}
+	return e.RegisterTranslator(id)
+}
+
 func c10Pair(c *engine.Case) *engine.Result {
 	res := &engine.Result{NonTrivial: true}
 	_, env := smallGrammar()
@@ -356,6 +367,16 @@ func c10Pair(c *engine.Case) *engine.Result {
 			}
 			if x.Outcome() != z.Outcome() {
 				res.Violations = append(res.Violations, vf("sugar-changes-meaning", "%s gives %s on the default engine but %s on an engine with the same operators and functions registered by hand (%s)", c.Src, x.Outcome(), z.Outcome(), b))
+			}
+			for _, after := range []bool{false, true} {
+				w := &BackendObs{Obs: real.RunOn(withIdentityTranslator(b, after), c.Src, carg, varg)}
+				res.Execs++
+				if w.Obs.Val != nil {
+					w.Val, w.ValErr = real.FromVal(w.Obs.Val)
+				}
+				if x.Outcome() != w.Outcome() {
+					res.Violations = append(res.Violations, vf("sugar-changes-meaning", "%s gives %s on the default engine but %s on an engine with an additional identity translator (registered after first use: %v) (%s)", c.Src, x.Outcome(), w.Outcome(), after, b))
+				}
 			}
 		}
 		res.Execs += 2
